@@ -13,7 +13,7 @@ UNOPS = {'Not', 'Neg', 'PtrMetadata'}
 
 class Fn:
     __slots__ = ('name', 'last', 'args', 'ret', 'blocks', 'locals', 'impl_span', 'impl_trait', 'impl_self',
-                 'text_hash', 'kind', 'crate', 'nlines', '_linked')
+                 'text_hash', 'kind', 'crate', 'nlines', '_linked', 'owner')
 
     def __repr__(self):
         return f'<Fn {self.name}>'
@@ -422,6 +422,7 @@ class Program:
         self.statics = {}        # name -> Fn (body evaluated lazily)
         self.consts = {}         # name -> text ('const 2_usize') or Fn
         self.src_roots = []
+        self._last_by_name = {}
 
     def add_text(self, text, crate, roots):
         self.src_roots = list(dict.fromkeys(self.src_roots + roots))
@@ -542,6 +543,16 @@ class Program:
                 stmts.append(s[:-1] if s.endswith(';') else s)
         for a, t in f.args:
             f.locals[a] = t
+        # nested items (fn inside a method of a macro-generated impl) are attributed to the Self type of the closest
+        # preceding definition of their parent function (the dump lists nested items right after their parent)
+        f.owner = None
+        segs = split_path(f.name)
+        if len(segs) >= 2:
+            parent = '::'.join(segs[:-1])
+            pf = self._last_by_name.get(parent)
+            if pf is not None and pf.args:
+                f.owner = type_head(pf.args[0][1])
+        self._last_by_name[f.name] = f
         self.fns.append(f)
         if f.kind == 'fn':
             self.by_last.setdefault(f.last, []).append(f)
